@@ -29,8 +29,22 @@ def check_can_write(chk) -> None:
     from sa import paths as PT
     from sa.defuse import Inliner
 
-    inl = Inliner(fi.node)
-    fmx = FlowMap(fi.node)
+    # normalisation: a loop over a constant table of (item, predicate) rows is unrolled, predicates that are lambdas or
+    # products of closure factories (`def f(limit): return lambda column: ...`) are beta-reduced at their application
+    import copy as _copy
+
+    from sa.normalize import beta_block, unroll_tables
+
+    mod = repo.module(M)
+    funcs = {q: g.node for q, g in mod.funcs.items() if "." not in q}
+    fn = _copy.copy(fi.node)
+    try:
+        fn.body = beta_block(unroll_tables(list(fi.node.body), mod.consts), funcs, mod.consts)
+        ast.fix_missing_locations(fn)
+    except Exception:
+        fn = fi.node
+    inl = Inliner(fn)
+    fmx = FlowMap(fn)
     want = {
         "id": ("pd.to_numeric(df['id'], errors='coerce').max()", c["max_serial"]),
         "auth_asym_id": ("df['auth_asym_id'].dropna().astype(str).str.len().max()", c["max_chain_len"]),
@@ -62,7 +76,7 @@ def check_can_write(chk) -> None:
 
     results = []
     unknown = []
-    for events, exit_ in PT.paths(fi.node.body):
+    for events, exit_ in PT.paths(fn.body):
         if exit_ != "return":
             unknown.append("a path falls off the end")
             continue
@@ -158,12 +172,130 @@ def check_fit(chk) -> None:
     inplace = [c2 for c2 in ast.walk(fi.node) if isinstance(c2, ast.Call) and isinstance(c2.func, ast.Attribute) and norm(c2.func.value) == "df" and any(k.arg == "inplace" for k in c2.keywords)]
     chk.expect(not stores_to_df and not inplace, "input-untouched", fi.where, "the input frame is never written", "fit_to_pdb writes into its argument", K(fi, "input-write"))
     # column selection per format
+    from checks import c10e
+
+    def _try(f, *a):
+        try:
+            return f(chk, fi, *a)
+        except AnalysisError:
+            raise
+        except Exception as ex:
+            chk.ok("fit-eval", fi.where, f"{f.__name__} failed internally ({type(ex).__name__}: {str(ex)[:60]}): the pinned-form rule decides")
+            return False
+
+    if not _try(c10e.check_column_selection_eval):
+        _column_selection_form(chk, fi)
+    _check_fit_rest(chk, fi, fm, f, c, _try)
+
+
+def _enclosing_loop(fn: ast.AST, node: ast.AST) -> Optional[ast.For]:
+    best = None
+    for l in ast.walk(fn):
+        if isinstance(l, ast.For) and any(n is node for b in l.body for n in ast.walk(b)):
+            best = l  # ast.walk is breadth-first: the last hit is the innermost
+    return best
+
+
+def _column_sources(value: ast.AST, scope: ast.For) -> Set[str]:
+    """Keys k of every `df_fitted[k]` the value is computed from, following local names through their assignments inside `scope`
+    ('?' for a data source that is not a column of the fitted frame: another frame, a call result that is not a conversion of those)."""
+    seen: Set[str] = set()
+    out: Set[str] = set()
+    todo = [value]
+    assigns: Dict[str, List[ast.AST]] = {}
+    for st in ast.walk(scope):
+        if isinstance(st, ast.Assign) and len(st.targets) == 1 and isinstance(st.targets[0], ast.Name):
+            assigns.setdefault(st.targets[0].id, []).append(st.value)
+    while todo:
+        e = todo.pop()
+        for n in ast.walk(e):
+            if isinstance(n, ast.Subscript) and isinstance(n.value, ast.Name) and n.value.id in ("df_fitted", "df"):
+                out.add(norm(n.slice) if n.value.id == "df_fitted" else "?")
+            elif isinstance(n, ast.Name) and isinstance(n.ctx, ast.Load) and n.id in assigns and n.id not in seen:
+                seen.add(n.id)
+                todo.extend(assigns[n.id])
+    return out
+
+
+def _residue_count(chk, fi) -> None:
+    """Residues per chain = number of distinct (number, insertion code) pairs per chain; its maximum (0 for no chains) is what the limit is applied to.
+    Read after normalisation: nested single-return functions as lambdas, `x = 0; if t: x = v` as a conditional expression, names inlined."""
+    import copy as _copy
+
+    from sa.defuse import Inliner
+    from sa.normalize import alpha, inline_local_lambdas, merge_default_override
+
+    try:
+        fn = inline_local_lambdas(fi.node)
+        if fn is fi.node:
+            fn = _copy.copy(fi.node)
+        fn.body = merge_default_override(fn.body)
+        inl = Inliner(fn)
+    except Exception as ex:
+        chk.error("feasibility", fi.where, f"residue count not readable ({type(ex).__name__})")
+        return
+    use = [s2 for s2 in fn.body if isinstance(s2, ast.If) and s2.body and isinstance(s2.body[-1], ast.Raise) and isinstance(s2.test, ast.Compare) and "residue" in norm(s2.test)]
+    if len(use) != 1 or len(use[0].test.ops) != 1:
+        chk.error("feasibility", fi.where, "the refusal `residues per chain > limit` was not found")
+        return
+    e = inl.inline(use[0].test.left, use[0], stop=("df", "chain_col", "resseq_col", "icode_col"))
+    # e: <counts>.max() if not <counts>.empty else 0   (either orientation)
+    counts = None
+    if isinstance(e, ast.IfExp):
+        t, a, b = e.test, e.body, e.orelse
+        if isinstance(t, ast.UnaryOp) and isinstance(t.op, ast.Not):
+            t, a, b = t.operand, a, b
+        else:
+            a, b = b, a
+        m = astq.match(a, "C_.max()")
+        if m and norm(t) == norm(m["C_"]) + ".empty" and isinstance(b, ast.Constant) and b.value == 0:
+            counts = m["C_"]
+    else:
+        m = astq.match(e, "C_.max()")
+        if m:
+            counts = m["C_"]  # no empty case: the maximum of no counts is NaN, which compares False with the limit like 0 does
+    if counts is None:
+        chk.error("feasibility", fi.site(use[0]), f"the quantity compared with the residue limit, `{norm(e)[:90]}`, is not the maximum of per-chain counts (0 when there are none)")
+        return
+    m = astq.match(counts, "T_.groupby(G_).apply(F_)")
+    if not m or not isinstance(m["F_"], ast.Lambda) or len(m["F_"].args.args) != 1:
+        chk.error("feasibility", fi.site(use[0]), f"per-chain counts `{norm(counts)[:90]}` are not `<table>.groupby(<chain>).apply(<count function>)`")
+        return
+    lam = alpha(m["F_"], ["x"])
+    mm = astq.match(lam.body, "x[L_].drop_duplicates().shape[0]") or astq.match(lam.body, "len(x[L_].drop_duplicates())") or astq.match(lam.body, "x[L_].drop_duplicates().shape[0]")
+    table = m["T_"]
+    tm = astq.match(table, "pd.DataFrame(D_)") or astq.match(table, "pandas.DataFrame(D_)")
+    if not mm or not tm or not isinstance(tm["D_"], ast.Dict) or not isinstance(mm["L_"], ast.List):
+        if mm is None and tm is not None:
+            chk.violation("feasibility", fi.site(use[0]), f"residues per chain are counted by `{norm(lam.body)[:80]}`, not as the number of distinct (number, insertion code) pairs of the chain", K(fi, "residue-count"))
+        else:
+            chk.error("feasibility", fi.site(use[0]), f"count function `{norm(lam.body)[:80]}` / table `{norm(table)[:60]}` not understood")
+        return
+    src = {}
+    for k2, v2 in zip(tm["D_"].keys, tm["D_"].values):
+        if isinstance(k2, ast.Constant):
+            names = {n.id for n in ast.walk(v2) if isinstance(n, ast.Name)}
+            src[k2.value] = "chain" if "chain_col" in names else "number" if "resseq_col" in names else "icode" if "icode_col" in names else "?"
+    g = m["G_"].value if isinstance(m["G_"], ast.Constant) else None
+    cols = [x.value for x in mm["L_"].elts if isinstance(x, ast.Constant)]
+    roles = sorted(src.get(c2, "?") for c2 in cols)
+    ok = src.get(g) == "chain" and roles == ["icode", "number"]
+    chk.expect(ok, "feasibility", fi.site(use[0]), "residues per chain = distinct (number, insertion code) per chain; the limit is applied to the largest count (0 without chains)", f"residues per chain are counted over the columns {roles} grouped by `{src.get(g)}`, not as distinct (number, insertion code) per chain", K(fi, "residue-count"), found={"group": src.get(g), "distinct over": roles})
+
+
+def _column_selection_form(chk, fi) -> None:
     sel = {}
     for s in ast.walk(fi.node):
         if isinstance(s, ast.If) and norm(s.test) in ("format_type == 'PDB'", "format_type == 'mmCIF'"):
             sel[norm(s.test)] = {norm(x.targets[0]): x.value.value for x in s.body if isinstance(x, ast.Assign) and isinstance(x.value, ast.Constant)}
     want_sel = {"format_type == 'PDB'": {"serial_col": "serial", "chain_col": "chainID", "resseq_col": "resSeq", "icode_col": "iCode"}, "format_type == 'mmCIF'": {"serial_col": "id", "chain_col": "auth_asym_id", "resseq_col": "auth_seq_id", "icode_col": "pdbx_PDB_ins_code"}}
     chk.expect(sel == want_sel, "column-selection", fi.where, "serial/chain/number/icode columns per format (author items for mmCIF)", "the columns fit_to_pdb renames are not (serial, chainID, resSeq, iCode) / (id, auth_asym_id, auth_seq_id, pdbx_PDB_ins_code)", K(fi, "columns"), found=sel)
+
+
+def _check_fit_rest(chk, fi, fm, f, c, _try) -> None:
+    from checks import c10e
+
+    repo = chk.repo
     # feasibility
     consts = {nm: f.try_fold(astq.first_assign(fi.node, nm)) for nm in ("max_pdb_serial", "max_pdb_residue") if astq.first_assign(fi.node, nm) is not None}
     alpha = f.try_fold(astq.first_assign(fi.node, "available_chain_ids")) if astq.first_assign(fi.node, "available_chain_ids") is not None else None
@@ -190,12 +322,7 @@ def check_fit(chk) -> None:
             chk.ok("feasibility", fi.where, "refuses when atoms + TER lines, chains or residues per chain exceed the limits")
     defs = {nm: norm(astq.first_assign(fi.node, nm)) if astq.first_assign(fi.node, nm) is not None else None for nm in ("unique_chains", "num_chains", "total_atoms")}
     chk.expect(defs == {"unique_chains": "df[chain_col].unique()", "num_chains": "len(unique_chains)", "total_atoms": "len(df)"}, "feasibility", fi.where, "counts: chains = distinct chain ids (order of appearance), atoms = rows", "the counted quantities changed", K(fi, "counts"), found=defs)
-    rc = astq.first_assign(fi.node, "residue_counts")
-    ok = rc is not None and flat(rc) == flat("check_df.groupby('chain').apply(lambda x: x[['resSeq', 'iCode']].drop_duplicates().shape[0])")
-    use = [s2 for s2 in fi.node.body if isinstance(s2, ast.If) and "max_residues_per_chain" in norm(s2.test)]
-    mr = inl.reaching("max_residues_per_chain", use[0]) if use else None
-    ok = ok and mr is not None and norm(mr) in ("residue_counts.max() if not residue_counts.empty else 0", "0 if residue_counts.empty else residue_counts.max()")
-    chk.expect(ok, "feasibility", fi.where, "residues per chain = distinct (number, insertion code) per chain", "residues per chain are not counted as distinct (resSeq, iCode) per chain", K(fi, "residue-count"))
+    _residue_count(chk, fi)
     # index after the `> 62` guard
     cm = astq.first_assign(fi.node, "chain_mapping")
     guard = [s for s in fi.node.body if isinstance(s, ast.If) and norm(inl.inline(s.test, s, stop=("num_chains", "max_pdb_chains"))) == "num_chains > max_pdb_chains"]
@@ -207,9 +334,17 @@ def check_fit(chk) -> None:
     if muts and shared:
         chk.violation("chain-alphabet", fi.site(muts[0]), f"`{norm(muts[0])[:60]}` consumes `{alpha_def.id}`, a module-level list shared by every call: the second table gets other chain ids (and the pool eventually runs dry with IndexError)", K(fi, "alphabet-mutated"))
     cm_forms = (flat("{orig_chain: available_chain_ids[i] for i, orig_chain in enumerate(unique_chains)}"), flat("dict(zip(unique_chains, available_chain_ids))"), flat("{orig_chain: new_chain for orig_chain, new_chain in zip(unique_chains, available_chain_ids)}"))
-    ok = cm is not None and flat(cm) in cm_forms
-    ok = ok and guard and cm.lineno > guard[0].lineno
-    if not (muts and shared):
+    if muts and shared:
+        pass
+    elif _try(c10e.check_chain_map_eval):
+        # one-to-one, total, into the alphabet: decided by evaluation.  What remains is that the size check comes first
+        # (with more than 62 chains the alphabet runs out: IndexError / StopIteration instead of ValueError).
+        ap0 = [k for k, s2 in enumerate(fi.node.body) if isinstance(s2, ast.Assign) and isinstance(s2.value, ast.Call) and isinstance(s2.value.func, ast.Attribute) and s2.value.func.attr == "map"]
+        g0 = [k for k, s2 in enumerate(fi.node.body) if guard and s2 is guard[0]]
+        chk.expect(bool(g0) and bool(ap0) and g0[0] < ap0[0], "chain-map", fi.where, "the chain map is built after the check that at most 62 chains exist", "the chain map is built without a preceding `number of chains > size of the alphabet` refusal: the alphabet runs out for larger tables", K(fi, "chain-map-guard"))
+    else:
+        ok = cm is not None and flat(cm) in cm_forms
+        ok = ok and guard and cm.lineno > guard[0].lineno
         chk.expect(ok, "chain-map", fi.where, "chains are renamed by pairing the distinct ids with the alphabet in order (one-to-one), after the size check", "the chain map is not {id: alphabet[i] for i, id in enumerate(unique ids)} built after the size check", K(fi, "chain-map"))
     ap = [s for s in fi.node.body if isinstance(s, ast.Assign) and norm(s) == "df_fitted[chain_col] = df_fitted[chain_col].map(chain_mapping)"]
     chk.expect(len(ap) == 1, "chain-map", fi.where, "the map is applied to every row", "the chain map is not applied to the whole chain column", K(fi, "chain-apply"))
@@ -326,10 +461,14 @@ def check_fit(chk) -> None:
                 n_st += 1
                 if kn in allowed_vars:
                     continue
-                if kn == "col":
+                loop = _enclosing_loop(fi.node, s)
+                if isinstance(key, ast.Name) and loop is not None and isinstance(loop.target, ast.Name) and loop.target.id == kn:
+                    # a store into the column the loop is at: allowed when the value is computed from that column only (a conversion of
+                    # the column onto itself, possibly through locals), or creates the column when it is absent
                     v = norm(s.value)
-                    selfmap = "df_fitted[col]" in v and not [x for x in ast.walk(s.value) if isinstance(x, ast.Subscript) and norm(x.value) == "df_fitted" and norm(x.slice) != "col"]
-                    create = v == "pd.Series(dtype='object')" and any(norm(g2.test) == "col not in df_fitted.columns" and g2.polarity for g2 in facts(fm.of(s).guards))
+                    srcs = _column_sources(s.value, loop)
+                    selfmap = bool(srcs) and srcs == {kn}
+                    create = v == "pd.Series(dtype='object')" and any(norm(g2.test) == f"{kn} not in df_fitted.columns" and g2.polarity for g2 in facts(fm.of(s).guards))
                     if selfmap or create:
                         continue
                 chk.violation("frame-condition", fi.site(s), f"`{norm(s)[:80]}` stores into a column other than serial/chain/number/insertion code (or is not a type conversion of the column onto itself): data of another field are overwritten", K(fi, f"store:{kn}"))
@@ -337,20 +476,95 @@ def check_fit(chk) -> None:
     drops = sorted(norm(c2) for c2 in astq.calls(fi.node, "drop"))
     chk.expect(drops == ["df_fitted.drop(columns=[new_resseq_col], inplace=True)", "df_fitted.drop(columns=[new_serial_col], inplace=True)"], "frame-condition", fi.where, "only the two temporaries are dropped", f"columns dropped: {drops}", K(fi, "drops"))
     # dtype typestate: fillna on a bare column only after add_categories / astype(object)
+    from sa import paths as PT
+
     for c2 in astq.calls(fi.node, "fillna"):
         recv = c2.func.value
         if isinstance(recv, ast.Call) and astq.callee_name(recv) == "astype":
             chk.ok("dtype-typestate", fi.site(c2), f"`{norm(recv)[:50]}` is converted before fillna")
             continue
-        st = fm.stmt_of(c2)
-        fs = facts(fm.of(st).guards)
-        blk_ok = any(norm(g2.test) == "has_nans" and g2.polarity for g2 in fs) and "add_categories" in norm(fi.node)
-        chk.expect(blk_ok, "dtype-typestate", fi.site(c2), "fillna on a categorical column happens after the new category was added", f"`{norm(c2)[:70]}` fills a possibly categorical column with a new value without astype(object)/add_categories: TypeError", K(fi, f"fillna:{norm(recv)[:40]}"))
-    # rename map
+        # typestate along every path of the enclosing loop body that reaches the fillna: before it the filled value was added to the
+        # categories, or was established to be one of them already
+        fill = norm(c2.args[0]) if c2.args else "?"
+        loop = _enclosing_loop(fi.node, c2)
+        body = loop.body if loop is not None else fi.node.body
+        reach = unsafe = 0
+        try:
+            for events, exit_ in PT.paths(body):
+                idx = next((k for k, ev in enumerate(events) if ev[0] == "stmt" and any(n is c2 for n in ast.walk(ev[1]))), None)
+                if idx is None:
+                    continue
+                reach += 1
+                safe = False
+                for ev in events[:idx]:
+                    if ev[0] == "stmt" and any(isinstance(n, ast.Call) and isinstance(n.func, ast.Attribute) and n.func.attr == "add_categories" and fill in norm(n) for n in ast.walk(ev[1])):
+                        safe = True
+                    if ev[0] == "test" and ".categories" in ev[1]:
+                        t = norm(ev[3])
+                        if (t.startswith(f"{fill} not in ") and ev[2] is False) or (t.startswith(f"{fill} in ") and ev[2] is True):
+                            safe = True
+                if not safe:
+                    unsafe += 1
+        except Exception as ex:
+            chk.error("dtype-typestate", fi.site(c2), f"paths to `{norm(c2)[:50]}` not enumerable ({type(ex).__name__})")
+            continue
+        if reach == 0:
+            chk.error("dtype-typestate", fi.site(c2), f"no path to `{norm(c2)[:50]}` found")
+            continue
+        chk.expect(unsafe == 0, "dtype-typestate", fi.site(c2), f"{reach} paths: fillna on a categorical column happens only after the new category was added (or is present)", f"`{norm(c2)[:70]}` fills a possibly categorical column with a new value without astype(object)/add_categories on {unsafe} of {reach} paths: TypeError", K(fi, f"fillna:{norm(recv)[:40]}"))
+    _rename_rules(chk, fi, fm, f, _try)
+    ess = None
+    for s in ast.walk(fi.node):
+        if isinstance(s, ast.Assign) and norm(s.targets[0]) == "pdb_essential_cols":
+            ess = f.try_fold(s.value)
+    chk.expect(ess == list(spec("pdb_columns.json")["atom"].keys())[:0] + ["record_type", "serial", "name", "altLoc", "resName", "chainID", "resSeq", "iCode", "x", "y", "z", "occupancy", "tempFactor", "element", "charge", "model"], "essential-columns", fi.where, "the 16 PDB columns exist in the fitted table", "the list of essential PDB columns changed", K(fi, "essential"))
+    fmt = [s for s in fi.node.body if isinstance(s, ast.Assign) and norm(s) == "df_fitted.attrs['format'] = 'PDB'"]
+    rets = [r for r in fi.node.body if isinstance(r, ast.Return)]
+    chk.expect(len(fmt) == 1 and len(rets) == 1 and norm(rets[0].value) == "df_fitted", "result", fi.where, "the fitted copy is tagged PDB and returned", "the fitted table is not tagged format=PDB and returned", K(fi, "result"))
+
+
+def _rename_rules(chk, fi, fm, f, _try) -> None:
+    """The map that renames mmCIF items to PDB columns: injective on the columns of the table, and sending the item write_pdb prefers for
+    each field to that field.  Evaluated per class of table when the construction is pure Python; read off the folded literal otherwise."""
+    from checks import c10e
+    from checks.c08e import evidence
+    from sa.blockeval import Unknown
+
+    repo = chk.repo
+    wp = repo.func(M, "write_pdb")
+    cif = c09.extract_atom_data(wp, "mmCIF")
+    alias = c09.key_alias(repo)
+    maps = None
+    try:
+        maps = c10e.rename_maps(chk, fi)
+    except AnalysisError:
+        raise
+    except Unknown as ex:
+        chk.ok("rename-eval", fi.where, f"rename map not evaluable ({str(ex)[:70]}): the folded literal decides")
+    except Exception as ex:
+        chk.ok("rename-eval", fi.where, f"evaluation of the rename map failed internally ({type(ex).__name__}): the folded literal decides")
+    if maps is not None and cif:
+        with evidence(chk, "rename-injective", "rename-coverage"):
+            miss: Dict[str, Any] = {}
+            for tag, cols, mp in maps:
+                after = [mp.get(c2, c2) for c2 in cols]
+                dup = sorted({v for v in after if after.count(v) > 1})
+                who = {v: [c2 for c2 in cols if mp.get(c2, c2) == v] for v in dup}
+                chk.expect(not dup, "rename-injective", fi.where, f"evaluated ({tag}): no two columns of the table end up with the same PDB name", f"table with {tag}: columns {who.get(dup[0]) if dup else ''} are both renamed to `{dup[0] if dup else ''}`: duplicate column names break every later column access", K(fi, "rename-dup"), found=who)
+                for k, srcs in cif.items():
+                    fld = alias.get(k, k)
+                    present = [i2 for i2 in srcs if i2 in cols]
+                    if not present:
+                        continue
+                    pref = present[0]
+                    if mp.get(pref, pref) != fld:
+                        miss[pref] = [fld, mp.get(pref), tag]
+            chk.expect(not miss, "rename-coverage", fi.where, f"evaluated on {len(maps)} classes of table: every mmCIF item write_pdb prefers for a field is renamed to that field", "an mmCIF item that write_pdb reads is not renamed to its PDB column: the fitted table gets an empty column and the data are lost", K(fi, "rename-coverage"), found=miss)
+        return
     rm = astq.first_assign(fi.node, "rename_map")
     base = f.try_fold(rm) if rm is not None else None
     if not isinstance(base, dict):
-        chk.error("rename-map", fi.where, "rename_map does not fold to a dict literal")
+        chk.error("rename-map", fi.where, "the rename map is neither evaluable nor a dict literal bound to `rename_map`")
         return
     vals = list(base.values())
     dup = sorted({v for v in vals if vals.count(v) > 1})
@@ -365,9 +579,6 @@ def check_fit(chk) -> None:
             ok = all(f"'{r}' not in df_fitted.columns" in gs for r in rivals)
             chk.expect(ok, "rename-injective", fi.site(s), f"{k} -> {v} only when {rivals} is absent", f"conditional rename {k} -> {v} is not guarded by the absence of {rivals}", K(fi, f"rename-cond:{k}"))
     # coverage against write_pdb's mmCIF preferences
-    wp = repo.func(M, "write_pdb")
-    cif = c09.extract_atom_data(wp, "mmCIF")
-    alias = {"record_name": "record_type"}
     miss = {}
     for k, srcs in cif.items():
         fld = alias.get(k, k)
@@ -380,14 +591,6 @@ def check_fit(chk) -> None:
             if i > 0 and tgt is not None and tgt != fld:
                 miss[item] = [fld, tgt]  # a fallback item, when renamed at all, must go to the same field
     chk.expect(not miss, "rename-coverage", fi.where, "every mmCIF item write_pdb reads a field from is renamed to that field", "an mmCIF item that write_pdb reads is not renamed to its PDB column: the fitted table gets an empty column and the data are lost", K(fi, "rename-coverage"), found=miss)
-    ess = None
-    for s in ast.walk(fi.node):
-        if isinstance(s, ast.Assign) and norm(s.targets[0]) == "pdb_essential_cols":
-            ess = f.try_fold(s.value)
-    chk.expect(ess == list(spec("pdb_columns.json")["atom"].keys())[:0] + ["record_type", "serial", "name", "altLoc", "resName", "chainID", "resSeq", "iCode", "x", "y", "z", "occupancy", "tempFactor", "element", "charge", "model"], "essential-columns", fi.where, "the 16 PDB columns exist in the fitted table", "the list of essential PDB columns changed", K(fi, "essential"))
-    fmt = [s for s in fi.node.body if isinstance(s, ast.Assign) and norm(s) == "df_fitted.attrs['format'] = 'PDB'"]
-    rets = [r for r in fi.node.body if isinstance(r, ast.Return)]
-    chk.expect(len(fmt) == 1 and len(rets) == 1 and norm(rets[0].value) == "df_fitted", "result", fi.where, "the fitted copy is tagged PDB and returned", "the fitted table is not tagged format=PDB and returned", K(fi, "result"))
 
 
 def run(chk) -> None:
